@@ -22,7 +22,11 @@ hy.read-many docstring):
     starts to be read; unknown name => syntax error, the stream ends;
   * a reader macro returning None produces no form; `parse-one-form` inside a reader macro skips such non-forms;
   * defreader / require :readers add to the module's table and to the table of the reader of the stream being compiled;
-    a fresh reader starts empty; a module's table is never consulted by a reader.
+    a fresh reader starts empty; a module's table is not consulted when `#name` is read;
+  * a library file is read by a reader of its own: its text may use only what it defined or required itself, otherwise
+    requiring it fails with that syntax error (at compile time of the requiring form) and brings nothing in;
+  * NOT specified, hence kept out of the domain (Invalid): after `(require L :readers *)` Hy enables every reader macro the
+    requiring *module* has, so a name the module got through another reader becomes usable (table entry MAYBE).
 """
 
 POOL = ["a", "b", "c", "d-e", "q!", "λx"]
